@@ -604,18 +604,20 @@ class Supervisor(PoolThread):
 
 class TaskHandler(PoolThread):
 
-    def __init__(self, taskqueue, put, outqueue, pool, cache):
+    def __init__(self, taskqueue, put, outqueue, pool, cache, putlock=None):
         self.taskqueue = taskqueue
         self.put = put
         self.outqueue = outqueue
         self.pool = pool
         self.cache = cache
+        self.putlock = putlock
         super().__init__()
 
     def body(self):
         cache = self.cache
         taskqueue = self.taskqueue
         put = self.put
+        putlock = self.putlock
 
         for taskseq, set_length in iter(taskqueue.get, None):
             task = None
@@ -633,9 +635,15 @@ class TaskHandler(PoolThread):
                     except Exception:
                         job, ind = task[1][:2]
                         try:
-                            cache[job]._set(ind, (False, ExceptionInfo()))
+                            item = cache[job]
                         except KeyError:
                             pass
+                        else:
+                            # this failure is the job's first result: like
+                            # a result from a worker it frees the job's slot.
+                            if putlock is not None and not item.ready():
+                                putlock.release()
+                            item._set(ind, (False, ExceptionInfo()))
                 else:
                     if set_length:
                         debug('doing set_length()')
@@ -1091,7 +1099,8 @@ class Pool:
                                               self._quick_put,
                                               self._outqueue,
                                               self._pool,
-                                              self._cache)
+                                              self._cache,
+                                              self._putlock)
         if threads:
             self._task_handler.start()
 
@@ -1576,7 +1585,15 @@ class Pool:
                 self._taskqueue.put(([(TASK, (result._job, None,
                                     func, args, kwds))], None))
             else:
-                self._quick_put((TASK, (result._job, None, func, args, kwds)))
+                try:
+                    self._quick_put(
+                        (TASK, (result._job, None, func, args, kwds)))
+                except Exception:
+                    # not sent, the caller gets the error: no result will
+                    # ever give the slot back.
+                    if waitforslot and self._putlock is not None:
+                        self._putlock.release()
+                    raise
             return result
 
     def send_ack(self, response, job, i, fd):
